@@ -45,6 +45,7 @@ def run(tier):
     check.cov["scaled_sources_bytes"] = [len(x) for x in scaled]
     tasks = [{"op": "analyze", "src": s, "ver": v, "limit_ms": 2000 + len(s) // 10} for s in srcs + scaled for v in ("7.4", "5.6")]
     tasks += [{"op": "analyze", "src": p["src"], "ver": p["ver"], "limit_ms": 4000} for p in sigs]
+    tasks += [{"op": "analyze", "src": p["src"], "ver": p["ver"], "limit_ms": 6000 + len(p["src"]) // 10} for p in inputs.long_token_programs()]
     tasks += [{"op": "analyze", "src": p["src"], "ver": p["ver"], "limit_ms": 4000 + len(p["src"]) // 10} for p in inputs.programs(check, tier) if "used" in p]
     ntrees = 0
     for t, r in zip(tasks, wp.run(tasks)):
